@@ -9,7 +9,7 @@ SRC = {"a": ("/tmp/wt/out", "a"), "b": ("/tmp/wt/out", "b"), "c": ("/tmp/wt2/out
        "i": ("/tmp/wt6/out", "a"), "j": ("/tmp/wt6/out", "b"),
        "k": ("/tmp/wt7/out", "a"), "l": ("/tmp/wt7/out", "b"),
        "m": ("/tmp/wt9/out", "a"), "n": ("/tmp/wt9/out", "b"),
-       "o": ("/tmp/wt10/out", "a")}
+       "o": ("/tmp/wt10/out", "a"), "p": ("/tmp/wt11/out", "a")}
 for key, (what, needs) in DESC.items():
     pid, var = key.split("-")
     root, v = SRC[var]
@@ -21,7 +21,7 @@ for key, (what, needs) in DESC.items():
     for f in ("patch.diff", "demo.py", "notes.md"):
         if os.path.exists(os.path.join(src, f)):
             shutil.copy(os.path.join(src, f), dst)
-    json.dump({"property": pid, "origin": "independent sub-agent given only the property text and a scratch worktree of /repo" + (" (second round: asked for narrow-region changes different from the first round)" if var in "cd" else " (third round: asked for changes needing a conjunction of two specific circumstances)" if var in "ef" else " (fourth round: asked for threshold / numeric / unicode / order corners that a broad randomized campaign does not reach)" if var in "gh" else " (fifth round: asked for realistic maintainer slips - caching, early exits, aliasing, dropped cases - inside the property's quantification, told what the campaign already covers)" if var in "ij" else " (sixth round: asked for changes invisible to any single call on fresh objects - state kept between calls, aliasing, objects changed by use, live views, order dependence)" if var in "kl" else " (seventh round: the agent was given a full description of what the campaign does after round 6 and asked for a change it does NOT reach)" if var in "mn" else " (eighth round: asked for a change that needs a multi-step sequence on the same objects, an unusual-but-legal input shape, a combination of two features or two cooperating code sites; user callables, container subclasses, NaN, >64-bit integers, threads and recursion-limit effects ruled out)" if var in "o" else ""),
+    json.dump({"property": pid, "origin": "independent sub-agent given only the property text and a scratch worktree of /repo" + (" (second round: asked for narrow-region changes different from the first round)" if var in "cd" else " (third round: asked for changes needing a conjunction of two specific circumstances)" if var in "ef" else " (fourth round: asked for threshold / numeric / unicode / order corners that a broad randomized campaign does not reach)" if var in "gh" else " (fifth round: asked for realistic maintainer slips - caching, early exits, aliasing, dropped cases - inside the property's quantification, told what the campaign already covers)" if var in "ij" else " (sixth round: asked for changes invisible to any single call on fresh objects - state kept between calls, aliasing, objects changed by use, live views, order dependence)" if var in "kl" else " (seventh round: the agent was given a full description of what the campaign does after round 6 and asked for a change it does NOT reach)" if var in "mn" else " (eighth round: asked for a change that needs a multi-step sequence on the same objects, an unusual-but-legal input shape, a combination of two features or two cooperating code sites; user callables, container subclasses, NaN, >64-bit integers, threads and recursion-limit effects ruled out)" if var in "o" else " (ninth round: as the eighth, and told that value-keyed caches, state between calls, in-place mutation, aliasing and first-modifier early exits had been tried: asked for dropped / merged dispatch cases, wrong operators or boundaries, wrong operand, order, a field lost on one of several routes, numeric / empty / None corners)" if var in "p" else ""),
                "what": what, "needs": needs,
                "ran": f"tools/seeded.py {key}  (scratch clone of /repo + git apply; suite; demo with/without patch; ./check {pid} --tier quick --src <scratch>)"},
               open(os.path.join(dst, "meta.json"), "w"), indent=1)
